@@ -297,6 +297,19 @@ func Verif_C02_timeout() {
 	verifChild = nil
 	conn := &verifConn{hdr: http.Header{}}
 	req := (&http.Request{Method: "GET", Header: http.Header{}}).WithContext(verifParent)
+	// an Upgrade header other than the websocket handshake is no exemption: net/http serves
+	// "Upgrade: h2c" or "Upgrade: TLS/1.0" as ordinary requests, the route timeout still applies
+	switch verifChoose("upgradeHeader", 4) {
+	case 1:
+		req.Header.Set(headerUpgrade, "h2c")
+		verifReach("foreign-upgrade-header")
+	case 2:
+		req.Header.Set(headerUpgrade, "TLS/1.0")
+		verifReach("foreign-upgrade-header")
+	case 3:
+		req.Header.Set(headerUpgrade, "h2c, websocket")
+		verifReach("foreign-upgrade-header")
+	}
 	var next http.Handler = s
 	if withRecover {
 		next = RecoverHandler(s) // as in engine.bindRoute: Timeout -> Recover -> ... -> handler
